@@ -7,6 +7,8 @@
 (*                     a full handshake is not resumed; a session-id resumption is; a ticket / TLS 1.3 PSK         *)
 (*                     resumption obeys MxConc!Serializable: resumed if its key was surely in the list during     *)
 (*                     the whole operation, not resumed if it was surely out of it                                  *)
+(*   callback window   with a session ticket callback registered: a ticket key found for a resumption stays in the   *)
+(*                     list until that resumption has used it (DelRespectsWindow, FoundMeansResumed of MxConc)      *)
 (* Data races themselves are the business of the ThreadSanitizer build that produced the log.                       *)
 EXTENDS Naturals, Integers, Sequences, FiniteSets, Json, IOUtils, TLC
 
@@ -24,6 +26,12 @@ SurelyAbsent(k, a, b) ==
     \/ \E d \in KeyOps : /\ d.op = "keydel" /\ d.k = k /\ d.t1 < a
                          /\ \A x \in KeyOps : (x.op = "keyadd" /\ x.k = k) => x.t1 < d.t0
                          /\ (k \in InitKeys => TRUE)
+
+\* the callback windows of the run (op "cb": a session ticket callback invocation, t0 / t1 stamped inside the callback)
+CbWins == {TraceLog[i] : i \in {j \in 1..Len(TraceLog) : TraceLog[j].op = "cb"}}
+\* MxConc!DelRespectsWindow: a deletion lying entirely inside the callback window of a resumption that had found the key
+\* must have been refused (the key is pinned from before the callback until after its use)
+DelRespectsWindow(d) == d.rcn >= 0 => ~\E r \in CbWins : r.k = d.k /\ r.found = 1 /\ r.t0 < d.t0 /\ d.t1 < r.t1
 
 HeldBy(th) == {lk \in DOMAIN held : held[lk] = th}
 Put(f, k, v) == [x \in DOMAIN f \cup {k} |-> IF x = k THEN v ELSE f[x]]
@@ -50,8 +58,11 @@ TConn == /\ l <= Len(TraceLog) /\ Line.op = "conn"
             /\ (t.want \in {"ticket", "psk"} /\ t.tk0 >= 0) =>
                    /\ SurelyPresent(t.tk0, t.t0, t.t1) => t.ress = 1
                    /\ SurelyAbsent(t.tk0, t.t0, t.t1) => t.ress = 0
+            /\ (t.want = "ticket" /\ t.cbf = 1) => t.ress = 1      \* MxConc!FoundMeansResumed: the callback accepted a key the library had found
          /\ UNCHANGED <<held, order>> /\ l' = l + 1
-TKey == /\ l <= Len(TraceLog) /\ Line.op \in {"keyadd", "keydel", "shut"} /\ UNCHANGED <<held, order>> /\ l' = l + 1
+TKey == /\ l <= Len(TraceLog) /\ Line.op \in {"keyadd", "keydel", "shut", "cb"}
+        /\ Line.op = "keydel" => DelRespectsWindow(Line)
+        /\ UNCHANGED <<held, order>> /\ l' = l + 1
 
 TraceNormal == TLock \/ TUnlock \/ TConn \/ TKey
 TReject == /\ l <= Len(TraceLog) /\ ~ENABLED TraceNormal
